@@ -51,6 +51,20 @@ Theorem merge_onesided_l_flat_object : forall O cfg St H kv d,
 Proof. exact (fun O cfg St H => onesided_flat_object O cfg St H chunks_guard entry_eq_strict conflict_assert_strict). Qed.
 Print Assumptions merge_onesided_l_flat_object.
 
+Theorem merge_onesided_r_flat_object : forall O cfg St H kv d,
+  d <> [] -> flat d -> skeys_lt None d ->
+  exists decs, decide O cfg St H (JObj kv) [] d = Ok decs /\ no_conf decs
+               /\ apply_decisions (JObj kv) decs = patch (pfuel (JObj kv) d) (JObj kv) d.
+Proof. exact (fun O cfg St H => onesided_remote_flat_object O cfg St H chunks_guard entry_eq_strict conflict_assert_strict). Qed.
+Print Assumptions merge_onesided_r_flat_object.
+
+Theorem merge_agree_flat_object : forall O cfg St H kv d,
+  d <> [] -> flat d -> skeys_lt None d ->
+  exists decs, decide O cfg St H (JObj kv) d d = Ok decs /\ no_conf decs
+               /\ apply_decisions (JObj kv) decs = patch (pfuel (JObj kv) d) (JObj kv) d.
+Proof. exact (fun O cfg St H => agree_flat_object O cfg St H chunks_guard entry_eq_strict conflict_assert_strict). Qed.
+Print Assumptions merge_agree_flat_object.
+
 (* the same change on both sides *)
 Theorem merge_agree_partial : forall O cfg St H base d decs,
   plain_string_root St base -> decide O cfg St H base d d = Ok decs -> no_conf decs.
